@@ -970,8 +970,27 @@ def as_long(value):
 
 def as_string(value):
     value = as_scalar(value)
-    if value is False:
+    if value is None:
+        # the empty node set
         return ''
+    if value is True:
+        return 'true'
+    if value is False:
+        return 'false'
+    if isinstance(value, float):
+        if value != value:
+            return 'NaN'
+        if value in (float('inf'), float('-inf')):
+            return value > 0 and 'Infinity' or '-Infinity'
+        if value == int(value):
+            # an integer has no decimal point (and negative zero no sign)
+            return six.text_type(int(value))
+        value = repr(value)
+        if 'e' in value:
+            # no exponents in XPath
+            from decimal import Decimal
+            value = format(Decimal(value), 'f')
+        return value
     return six.text_type(value)
 
 def as_bool(value):
